@@ -487,7 +487,7 @@ fn ask_devs(cfg: &Cfg, d: &AskDraft, inc: u128) -> Vec<(u8, AskDev)> {
     for i in idv {
         v.push((5, Box::new(move |x: &mut AskDraft| x.id = i.clone())));
     }
-    for s in ["stranger", "noattr", "someattr"] {
+    for s in ["stranger", "noattr", "someattr", "dupattr"] {
         let s = cfg.roles.0.get(s).cloned().unwrap_or(s.to_string());
         v.push((6, Box::new(move |x: &mut AskDraft| x.sender = s.clone())));
     }
@@ -525,7 +525,7 @@ fn bid_devs(cfg: &Cfg, d: &BidDraft, inc: u128) -> Vec<(u8, BidDev)> {
     for i in idv {
         v.push((5, Box::new(move |x: &mut BidDraft| x.id = i.clone())));
     }
-    for s in ["stranger", "noattr", "someattr"] {
+    for s in ["stranger", "noattr", "someattr", "dupattr"] {
         let s = cfg.roles.0.get(s).cloned().unwrap_or(s.to_string());
         v.push((6, Box::new(move |x: &mut BidDraft| x.sender = s.clone())));
     }
